@@ -52,10 +52,9 @@ def trimFront (toks : List (List Char)) : Option (List (List Char)) :=
 
 /-- same at the end -/
 def trimBack (toks : List (List Char)) : Option (List (List Char)) :=
-  match toks.reverse with
-  | t0 :: t1 :: rest => if t0.isEmpty then (if t1.isEmpty then some (t1 :: rest).reverse else none) else some toks
-  | [t0] => if t0.isEmpty then none else some toks
-  | [] => some toks
+  if toks.getLast? == some [] then
+    (if toks.dropLast.getLast? == some [] then some toks.dropLast else none)
+  else some toks
 
 /-- `socket.inet_pton(AF_INET6, s)` as an integer (`none` = OSError / ValueError) -/
 def pton6 (s : List Char) : Option Nat :=
@@ -111,9 +110,8 @@ def ntop6 (v : Nat) : List Char :=
   let toks := match best with
     | none => toks
     | some (b, l) =>
-      let new := toks.take b ++ [[]] ++ toks.drop (b + l)
-      let new := if b == 0 then [] :: new else new
-      if b + l == 8 then new ++ [[]] else new
+      (if b == 0 then [[]] else []) ++ toks.take b ++ [[]] ++ toks.drop (b + l)
+        ++ (if b + l == 8 then [[]] else [])
   [':'].intercalate toks
 
 end NV.Text6
